@@ -39,7 +39,8 @@ func init() {
 			"x {all in user values, all in the chart's own values.yaml}. Part B (gate placement): a reduced schema list (each keyword alone and combined) x 13 placements (root, root with subchart, " +
 			"root with crds/, subchart without/with condition on/off by defaults/by user, alias, sub-subchart, parent off, leaf off, root+sub both constrained) x 8 contents x every route " +
 			"(user float64/int64/json.Number/1.0, -f and --set through cli/values.MergeValues, own defaults, parent's section, root's section, overriding pairs, key-wise split, merged object). " +
-			"Part C: .global.g constrained in a subchart x global arriving from user/root defaults/own defaults. Part D: part B's schemas x {root, sub, root with crds/} x 9 contents x {U, D} on the Secrets and " +
+			"Part C: .global.g constrained in a subchart x global arriving from user/root defaults/own defaults. Part E: part B's schemas x 11 placements with crds/ in the root, a subchart, a sibling subchart or both while the violated schema is in the root, " +
+			"a subchart (plain/conditional/aliased/disabled), a sub-subchart or both x 9 contents x {U, D} x {install, dry-run, template, upgrade}. Part D: part B's schemas x {root, sub, root with crds/} x 9 contents x {U, D} on the Secrets and " +
 			"ConfigMaps storage drivers (cluster-touching entries only). Every (schema, tree) pair x {install, install --dry-run, template, upgrade after a " +
 			"valid install, upgrade reusing stored values, lint} x skip-schema-validation off/on. distinct = (schema text, chart tree, layers, entry, skip) with a schema that constrains something",
 		Run:    run,
@@ -59,6 +60,8 @@ func init() {
 			"kw:type", "kw:enum", "kw:minimum", "kw:maximum", "kw:required", "kw:additionalProperties",
 			"reject@install", "reject@install-dry", "reject@template", "reject@upgrade", "reject@upgrade-reuse", "reject@lint",
 			"reject-route:U-int64", "reject-route:U-jnum", "reject-route:U-file", "reject-route:U-set", "reject-global",
+			"reject@install:crds-root/schema-sub", "reject@install:crds-root/schema-leaf", "reject@install:crds-sub/schema-root", "reject@install:crds-sibling/schema-sub",
+			"reject@install:crds-root+sub/schema-root+sub", "crds-installed-when-valid",
 		},
 	})
 }
@@ -432,7 +435,7 @@ func isSchemaErr(entry, text string) bool {
 }
 
 func chainOf(spec *hx.ChartSpec, placement string) []string {
-	for _, p := range placements() {
+	for _, p := range append(placements(), crdPlacements()...) {
 		if p.Name == placement {
 			return p.Chain
 		}
@@ -587,6 +590,16 @@ func units(thorough bool) []unit {
 			out = append(out, unit{Part: "C", B: b, P: byName[pn], Trees: orderTrees(globalTrees())})
 		}
 	}
+	// Part E: crds/ somewhere in the tree, the schema somewhere (else) in the tree
+	for _, b := range bodiesReduced(thorough) {
+		for _, p := range crdPlacements() {
+			var ts []vtree
+			for _, c := range reducedContents() {
+				ts = append(ts, routes(c, len(p.Chain)-1, false)...)
+			}
+			out = append(out, unit{Part: "E", B: b, P: p, Trees: orderTrees(ts)})
+		}
+	}
 	// Part D: the other storage drivers
 	dBodies := bodiesReduced(false)
 	if !thorough {
@@ -611,6 +624,8 @@ func entriesFor(part string, thorough bool, vt vtree) []string {
 	var out []string
 	for _, en := range entriesAll {
 		switch {
+		case part == "E" && (en == "lint" || en == "upgrade-reuse"):
+			continue // part E is about what is sent before the rejection: install (real, dry, template) and upgrade
 		case part == "D" && (en == "lint" || en == "template" || en == "install-dry"):
 			continue // part D is about the storage driver: entries that can write to it
 		case en == "upgrade-reuse" && part == "A":
@@ -647,7 +662,8 @@ func run(c *core.Ctx) {
 	c.Bound("schemas-reduced", strconv.Itoa(len(bodiesReduced(th))+len(rootAPBodies(th))))
 	c.Bound("contents-full", strconv.Itoa(len(contents(th))))
 	c.Bound("placements", strconv.Itoa(len(placements())))
-	c.Bound("pairs", fmt.Sprintf("A=%d B=%d C=%d D=%d", nPairs["A"], nPairs["B"], nPairs["C"], nPairs["D"]))
+	c.Bound("crd-placements", strconv.Itoa(len(crdPlacements())))
+	c.Bound("pairs", fmt.Sprintf("A=%d B=%d C=%d D=%d E=%d", nPairs["A"], nPairs["B"], nPairs["C"], nPairs["D"], nPairs["E"]))
 	c.Bound("entries", strings.Join(entriesAll, ",")+" x skip{off,on}")
 	smoke := map[string]bool{bodiesReduced(false)[1].ID: true, bodiesReduced(false)[7].ID: true, bodiesReduced(false)[10].ID: true}
 	for _, u := range us {
@@ -727,6 +743,9 @@ func classify(c *core.Ctx, cs Case, o outcome) string {
 	case len(o.Verdicts) > 0 && !cs.Skip:
 		c.Floor("reject:" + cs.Class)
 		c.Floor("reject@" + cs.Entry)
+		if cs.Part == "E" {
+			c.Floor("reject@" + cs.Entry + ":" + cs.Placement)
+		}
 		c.Floor("reject-route:" + cs.Route)
 		for _, v := range o.Verdicts {
 			c.Floor("kw:" + v.Keyword)
@@ -748,6 +767,11 @@ func classify(c *core.Ctx, cs Case, o outcome) string {
 	c.Floor("accept-valid")
 	if o.Deployed {
 		c.Floor("deployed-valid")
+		for _, sent := range o.Sent {
+			if cs.Part == "E" && strings.HasSuffix(sent, "/customresourcedefinitions") {
+				c.Floor("crds-installed-when-valid") // the placements really ship CRDs Helm would send
+			}
+		}
 	}
 	if cs.Skip {
 		return "accepted-valid-with-skip"
